@@ -4,10 +4,10 @@
    regenerates from psiaudio/util.py on every run (u_db, u_dbi, u_dbtopa, u_patodb, u_spectrum_to_band_level,
    u_band_to_spectrum_level, csd_scale, csd_to_signal_scale, tone_conv_re/im, tone_power_of_abs, rms_of_meansq);
    np.fft.rfft / irfft are the DFT sums of Spectrum/DFT.v (tied to numpy numerically by harness/C16.py).
-   Spectra are those of util.csd / psd / tone_conv WITHOUT detrending and WITHOUT window (window: numeric search only).
+   Spectra are those of util.csd / psd / tone_conv WITHOUT detrending; windows are the cosine-sum windows (C16_window_law).
    Print Assumptions lists the axioms of Coq's classical real numbers only. *)
 From Coq Require Import Reals Lra Lia ZArith.
-From PV Require Import Calib.RBase gen.UtilExprGen Spectrum.TrigSum Spectrum.DFT Spectrum.Proofs.
+From PV Require Import Calib.RBase gen.UtilExprGen Spectrum.TrigSum Spectrum.DFT Spectrum.Proofs Spectrum.Glue.
 Open Scope R_scope.
 
 (* ---------------------------------------------------------------- dB conversions *)
@@ -63,6 +63,20 @@ Theorem C16_dc_nyquist_double : forall A p N k m, (0 < N)%nat -> (2 * m <= N)%na
 Proof. exact dc_nyquist_double. Qed.
 Print Assumptions C16_dc_nyquist_double.
 
+(* WITH A WINDOW: through any cosine-sum window of order J normalised by its mean (hann, hamming: J = 1; blackman: 2;
+   flattop: 4 - scipy's periodic windows, see Spectrum/DFT.v) the sinusoid reads A (cos p, sin p) at its bin whenever
+   J < 2k and 2k + J < N: every bin more than J/2 bins from DC and Nyquist, which includes every bin farther than the
+   main-lobe width (J + 1 bins).  The mean of such a window is its constant coefficient. *)
+Theorem C16_window_law : forall c J N k A p, c 0%nat <> 0 -> (J < 2 * k)%nat -> (2 * k + J < N)%nat ->
+  csd_re (windowed (cos_window c J N) N (sinusoid A p N k)) N k = A * cos p /\
+  csd_im (windowed (cos_window c J N) N (sinusoid A p N k)) N k = A * sin p.
+Proof. exact window_law. Qed.
+Print Assumptions C16_window_law.
+
+Theorem C16_window_mean : forall c J N, (J < N)%nat -> wmean (cos_window c J N) N = c 0%nat.
+Proof. exact cos_window_mean. Qed.
+Print Assumptions C16_window_mean.
+
 (* any averaging count B >= 1 (blocks of L samples, trailing samples trimmed): psd reads A at the bin, 0 elsewhere *)
 Theorem C16_psd_average : forall A p L k B m, 0 <= A -> (0 < 2 * k < L)%nat -> (2 * m <= L)%nat -> (0 < B)%nat ->
   psd (sinusoid A p L k) L B m = (if Nat.eq_dec m k then A else 0).
@@ -96,6 +110,28 @@ Theorem C16_inverse : forall x M n, (0 < M)%nat -> (n < 2 * M)%nat ->
   csd_to_signal (csd_re x (2 * M)) (csd_im x (2 * M)) M n = x n.
 Proof. exact inverse_even. Qed.
 Print Assumptions C16_inverse.
+
+(* ---------------------------------------------------------------- index arithmetic of averaging / trimming (Z, axiom-free) *)
+(* psd uses the first B * (n / B) samples: fewer than B are trimmed, none when B divides n *)
+Theorem C16_trimming : forall n B, (0 < B)%Z -> (0 <= n)%Z ->
+  (used n B <= n < used n B + B)%Z /\ used n B = (B * block_len n B)%Z /\ ((n mod B = 0)%Z -> used n B = n).
+Proof. exact trimming. Qed.
+Print Assumptions C16_trimming.
+
+(* the length csd_to_signal reconstructs from the bins of an n-sample frame: n when n is even, n - 1 when odd *)
+Theorem C16_roundtrip_length : forall n, (0 <= n)%Z -> signal_len (n_bins n) = (if Z.even n then n else n - 1)%Z.
+Proof. exact roundtrip_len. Qed.
+Print Assumptions C16_roundtrip_length.
+
+(* util.phase accepts every averaging count (it passes detrend=None to csd) ... *)
+Theorem C16_phase_averages : forall wa, csd_accepts (phase_detrend wa) = true.
+Proof. exact phase_averages_ok. Qed.
+Print Assumptions C16_phase_averages.
+
+(* ... the code before the repair of branch fix-C16C08 passed the averaging count as csd's detrend argument *)
+Theorem C16_phase_unrepaired_refuted : exists wa, csd_accepts (phase_detrend_unrepaired wa) = false.
+Proof. exact phase_unrepaired_refuted. Qed.
+Print Assumptions C16_phase_unrepaired_refuted.
 
 (* hypotheses are satisfiable *)
 Example C16_ex_bins : (0 < 2 * 3 < 16)%nat /\ (2 * 8 <= 16)%nat /\ (0 < 2 * 2 < 5)%nat /\ (2 * 2 <= 5)%nat /\ 0 <= 1 /\ 0 < 20 / 1000000.
